@@ -37,6 +37,8 @@ def run(ctx):
     ctx.do(rule_descends)
     from .hidden_state import rule_no_hidden_state
     ctx.do(rule_no_hidden_state, "C08.history-independence")
+    from .pitfalls import rule_loops_not_cut_short
+    ctx.do(rule_loops_not_cut_short, "C08.loops-complete")
 
 
 def walk_functions(prog):
